@@ -444,9 +444,20 @@ def instantiate(unit, drops, extracted):
                 if not rm:
                     raise extract.AnchorLost('`let v = X.iter().rposition(|b| P);` not found (rposition)')
                 ind = rm.group(1)
-                new = (ind + 'let pred__ = |%s: &u8| -> (r: bool)\n' % rm.group(4) + injects[rpos[0]].rstrip() + '\n' + ind + '{ ' + rm.group(5).strip() + ' };\n'
+                # the ghost text may name the locals of the statement through placeholders, so that renaming a local is not an anchor loss:
+                # $R = the bound result, $B = the closure parameter, and for `S.as_bytes()[LB..=IDX]`: $S, $LB, $IDX
+                subst = {'$R': rm.group(2), '$B': rm.group(4)}
+                wm2 = re.match(r'^(\w+)\.as_bytes\(\)\[(\w+)\.\.=(\w+)\]$', rm.group(3).strip())
+                if wm2:
+                    subst.update({'$S': wm2.group(1), '$LB': wm2.group(2), '$IDX': wm2.group(3)})
+
+                def fill(txt):
+                    for k_, v_ in sorted(subst.items(), key=lambda kv: -len(kv[0])):
+                        txt = txt.replace(k_, v_)
+                    return txt
+                new = (ind + 'let pred__ = |%s: &u8| -> (r: bool)\n' % rm.group(4) + fill(injects[rpos[0]]).rstrip() + '\n' + ind + '{ ' + rm.group(5).strip() + ' };\n'
                        + ind + 'let %s = slice_rposition__(&%s, pred__);\n' % (rm.group(2), rm.group(3).strip())
-                       + injects[rpos[1]].rstrip() + '\n')
+                       + fill(injects[rpos[1]]).rstrip() + '\n')
                 item = item[:rm.start()] + new + item[rm.end():]
                 kk = ('rewrote `X.iter().rposition(|b| P)` into `slice_rposition__(&X, pred__)` with `pred__ = |b: &u8| -> (r: bool) ensures .. { P }` bound '
                       'to a name (trusted wrapper carrying the contract of core\'s `rposition` on a slice iterator; the closure body P is the real one and is '
